@@ -13,11 +13,12 @@
    The connection state a handler's checks depend on is the abstract snapshot [cst]; handlers
    update it, so several frames in one packet interact as in the code.  Effects that cannot
    raise and are not read by any check (loss recovery, event queue, sender halves, stream
-   payload bytes) are not represented.  The TLS engine below the CRYPTO handler is modelled for
-   the post-handshake states; for handshake states its answer is an input ([tls_oracle]). *)
+   payload bytes) are not represented.  The TLS engine below the CRYPTO handler is model/TlsRecv.v
+   ([TlsRecv.crypto_deliver]: Context.handle_message over the raw CRYPTO bytes, every message handler,
+   `except tls.Alert`); what cryptography / X.509 / the callbacks answer is the oracle part of the
+   state ([ts_orcs]: one list of records per handle_message call, one record per dispatched message). *)
 From AQ Require Import lib.Base lib.Tok model.RangeSet model.StreamRecv model.Frames gen.C05Tables.
-From AQ Require gen.C05Tls.
-Definition MAX_HANDSHAKE_MESSAGE_SIZE : Z := C05Tls.MAX_HANDSHAKE_MESSAGE_SIZE.
+From AQ Require gen.C05Tls gen.TlsDispatch model.TlsRecv.
 
 (* ---------- exception kinds (Python classes that nothing below the API boundary catches) *)
 Definition EXN_AssertionError : Z := 1.
@@ -36,10 +37,11 @@ Record stream := mkStream {
   s_final : Z            (* receiver._final_size, -1 = None *)
 }.
 
-Record tls_oracle := mkTlsOracle {
-  to_kind : Z;           (* 0 returns normally | 1 tls.Alert | 2 QuicConnectionError | 3 other exception *)
-  to_val : Z;            (* alert description | error code | exception kind *)
-  to_ft : Z              (* frame type of a QuicConnectionError raised from a TLS callback *)
+(* self.tls and what the libraries below it will answer *)
+Record tls_side := mkTls {
+  ts_cfg : TlsRecv.tcfg;                 (* constructor arguments / callbacks of the tls.Context *)
+  ts_ctx : TlsRecv.tctx;                 (* state, _receive_buffer, key-schedule / certificate attributes *)
+  ts_orcs : list (list TlsRecv.orc)      (* oracle answers: head = records for the next handle_message call *)
 }.
 
 Record cst := mkCst {
@@ -58,14 +60,12 @@ Record cst := mkCst {
   c_peer_rpt : Z;              (* _peer_retire_prior_to *)
   c_retire_pending : Z;        (* len(_retire_connection_ids) *)
   c_cid_limit : Z;             (* _local_active_connection_id_limit *)
-  c_tls_state : Z;             (* tls.state.value *)
-  c_tls_oracle : tls_oracle;
+  c_tls : tls_side;            (* self.tls *)
   c_host_cids : list Z;        (* sequence numbers of _host_cids, in order *)
   c_peer_avail : list Z;       (* sequence numbers of _peer_cid_available, in order *)
   c_peer_seen : list Z;        (* _peer_cid_sequence_numbers *)
   c_challenges : list Z;       (* keys of _local_challenges (8 bytes, big endian) *)
   c_finished : list Z;         (* _streams_finished *)
-  c_tls_buf : list Z;          (* tls._receive_buffer *)
   c_streams : list stream;     (* _streams *)
   c_crypto_i : recv;           (* _crypto_streams[INITIAL].receiver *)
   c_crypto_h : recv;           (* _crypto_streams[HANDSHAKE].receiver *)
@@ -78,40 +78,40 @@ Record cst := mkCst {
 Definition set_streams (st : cst) (l : list stream) (md_used : Z) : cst :=
   mkCst (c_is_client st) md_used (c_md_value st) (c_ms_bidi st) (c_ms_uni st) (c_msd_bidi_remote st)
     (c_msd_uni st) (c_dgram_max st) (c_host_seq st) (c_ctx_cid st) (c_remote_cid_limit st) (c_peer_seq st)
-    (c_peer_rpt st) (c_retire_pending st) (c_cid_limit st) (c_tls_state st) (c_tls_oracle st) (c_host_cids st)
-    (c_peer_avail st) (c_peer_seen st) (c_challenges st) (c_finished st) (c_tls_buf st) l
+    (c_peer_rpt st) (c_retire_pending st) (c_cid_limit st) (c_tls st) (c_host_cids st)
+    (c_peer_avail st) (c_peer_seen st) (c_challenges st) (c_finished st) l
     (c_crypto_i st) (c_crypto_h st) (c_crypto_1 st) (c_close st) (c_host_unsent st).
 Definition set_host (st : cst) (seq : Z) (cids unsent : list Z) : cst :=
   mkCst (c_is_client st) (c_md_used st) (c_md_value st) (c_ms_bidi st) (c_ms_uni st) (c_msd_bidi_remote st)
     (c_msd_uni st) (c_dgram_max st) seq (c_ctx_cid st) (c_remote_cid_limit st) (c_peer_seq st)
-    (c_peer_rpt st) (c_retire_pending st) (c_cid_limit st) (c_tls_state st) (c_tls_oracle st) cids
-    (c_peer_avail st) (c_peer_seen st) (c_challenges st) (c_finished st) (c_tls_buf st) (c_streams st)
+    (c_peer_rpt st) (c_retire_pending st) (c_cid_limit st) (c_tls st) cids
+    (c_peer_avail st) (c_peer_seen st) (c_challenges st) (c_finished st) (c_streams st)
     (c_crypto_i st) (c_crypto_h st) (c_crypto_1 st) (c_close st) unsent.
 Definition set_peer (st : cst) (seq rpt pending : Z) (avail seen : list Z) : cst :=
   mkCst (c_is_client st) (c_md_used st) (c_md_value st) (c_ms_bidi st) (c_ms_uni st) (c_msd_bidi_remote st)
     (c_msd_uni st) (c_dgram_max st) (c_host_seq st) (c_ctx_cid st) (c_remote_cid_limit st) seq
-    rpt pending (c_cid_limit st) (c_tls_state st) (c_tls_oracle st) (c_host_cids st)
-    avail seen (c_challenges st) (c_finished st) (c_tls_buf st) (c_streams st)
+    rpt pending (c_cid_limit st) (c_tls st) (c_host_cids st)
+    avail seen (c_challenges st) (c_finished st) (c_streams st)
     (c_crypto_i st) (c_crypto_h st) (c_crypto_1 st) (c_close st) (c_host_unsent st).
 Definition set_challenges (st : cst) (l : list Z) : cst :=
   mkCst (c_is_client st) (c_md_used st) (c_md_value st) (c_ms_bidi st) (c_ms_uni st) (c_msd_bidi_remote st)
     (c_msd_uni st) (c_dgram_max st) (c_host_seq st) (c_ctx_cid st) (c_remote_cid_limit st) (c_peer_seq st)
-    (c_peer_rpt st) (c_retire_pending st) (c_cid_limit st) (c_tls_state st) (c_tls_oracle st) (c_host_cids st)
-    (c_peer_avail st) (c_peer_seen st) l (c_finished st) (c_tls_buf st) (c_streams st)
+    (c_peer_rpt st) (c_retire_pending st) (c_cid_limit st) (c_tls st) (c_host_cids st)
+    (c_peer_avail st) (c_peer_seen st) l (c_finished st) (c_streams st)
     (c_crypto_i st) (c_crypto_h st) (c_crypto_1 st) (c_close st) (c_host_unsent st).
-Definition set_crypto (st : cst) (epoch : Z) (r : recv) (tls_buf : list Z) : cst :=
+Definition set_crypto (st : cst) (epoch : Z) (r : recv) (t : tls_side) : cst :=
   mkCst (c_is_client st) (c_md_used st) (c_md_value st) (c_ms_bidi st) (c_ms_uni st) (c_msd_bidi_remote st)
     (c_msd_uni st) (c_dgram_max st) (c_host_seq st) (c_ctx_cid st) (c_remote_cid_limit st) (c_peer_seq st)
-    (c_peer_rpt st) (c_retire_pending st) (c_cid_limit st) (c_tls_state st) (c_tls_oracle st) (c_host_cids st)
-    (c_peer_avail st) (c_peer_seen st) (c_challenges st) (c_finished st) tls_buf (c_streams st)
+    (c_peer_rpt st) (c_retire_pending st) (c_cid_limit st) t (c_host_cids st)
+    (c_peer_avail st) (c_peer_seen st) (c_challenges st) (c_finished st) (c_streams st)
     (if epoch =? EPOCH_INITIAL then r else c_crypto_i st)
     (if epoch =? EPOCH_HANDSHAKE then r else c_crypto_h st)
     (if epoch =? EPOCH_ONE_RTT then r else c_crypto_1 st) (c_close st) (c_host_unsent st).
 Definition set_close (st : cst) (ev : option (bool * Z * Z)) : cst :=
   mkCst (c_is_client st) (c_md_used st) (c_md_value st) (c_ms_bidi st) (c_ms_uni st) (c_msd_bidi_remote st)
     (c_msd_uni st) (c_dgram_max st) (c_host_seq st) (c_ctx_cid st) (c_remote_cid_limit st) (c_peer_seq st)
-    (c_peer_rpt st) (c_retire_pending st) (c_cid_limit st) (c_tls_state st) (c_tls_oracle st) (c_host_cids st)
-    (c_peer_avail st) (c_peer_seen st) (c_challenges st) (c_finished st) (c_tls_buf st) (c_streams st)
+    (c_peer_rpt st) (c_retire_pending st) (c_cid_limit st) (c_tls st) (c_host_cids st)
+    (c_peer_avail st) (c_peer_seen st) (c_challenges st) (c_finished st) (c_streams st)
     (c_crypto_i st) (c_crypto_h st) (c_crypto_1 st) ev (c_host_unsent st).
 
 Definition CRYPTO_FAR : Z := 2000.
@@ -168,46 +168,6 @@ Definition get_or_create_stream (st : cst) (sid : Z) : gres :=
       GOk (set_streams st (put_stream s (c_streams st)) (c_md_used st)) s
   end.
 
-(* ---------- TLS below the CRYPTO handler: Context.handle_message's reassembly loop and the
-   per-state dispatch for the post-handshake states; other states answer with the oracle. *)
-Inductive tres : Type :=
-| TOk (tls_buf : list Z)
-| TAlert (d : Z)
-| TQErr (code ft : Z)
-| TExn (k : Z).
-
-Definition tls_message_outcome (st : cst) (msg_type : Z) : tres :=
-  if c_tls_state st =? TLS_SERVER_POST_HANDSHAKE then TAlert ALERT_unexpected_message
-  else if (c_tls_state st =? TLS_CLIENT_POST_HANDSHAKE) && negb (msg_type =? 4)
-  then TAlert ALERT_unexpected_message
-  else
-    let o := c_tls_oracle st in
-    if to_kind o =? 0 then TOk []
-    else if to_kind o =? 1 then TAlert (to_val o)
-    else if to_kind o =? 2 then TQErr (to_val o) (to_ft o)
-    else TExn (to_val o).
-
-Fixpoint tls_reassemble (fuel : nat) (st : cst) (buf : list Z) : tres :=
-  match fuel with
-  | O => TOk buf
-  | S fuel =>
-      match buf with
-      | t :: l1 :: l2 :: l3 :: _ =>
-          let mlen := 4 + be_value 0 [l1; l2; l3] in
-          if mlen >? MAX_HANDSHAKE_MESSAGE_SIZE then TAlert ALERT_decode_error      (* bb5bf12 *)
-          else if Zlen buf <? mlen then TOk buf
-          else match tls_message_outcome st t with
-               | TOk _ => tls_reassemble fuel st (zdrop mlen buf)
-               | r => r
-               end
-      | _ => TOk buf
-      end
-  end.
-
-Definition tls_handle_message (st : cst) (data : list Z) : tres :=
-  let buf := c_tls_buf st ++ data in
-  tls_reassemble (length buf) st buf.
-
 (* ---------- the handlers.  [b] is the buffer after the frame type. *)
 Definition with_stream (st : cst) (ft sid : Z) (rest : list Z)
            (k : cst -> stream -> hres) : hres :=
@@ -248,7 +208,11 @@ Definition h_stop_sending (st : cst) (ft : Z) (b : list Z) : hres :=
     with_stream st ft sid rest (fun st _ => HOk st rest)
   end end.
 
-Definition h_crypto (st : cst) (epoch ft : Z) (b : list Z) : hres :=
+(* _handle_crypto_frame.  After tls.handle_message returns, the "handshake complete" block
+   (_discard_epoch, _replenish_connection_ids, HandshakeCompleted) is not represented: it runs when the TLS
+   state reaches *_POST_HANDSHAKE, which takes a CRYPTO frame in the Initial / Handshake epoch (1-RTT read keys
+   exist only afterwards), and no frame type allowed in those epochs reads the connection-ID lists it changes. *)
+Definition h_crypto (patched : bool) (st : cst) (epoch ft : Z) (b : list Z) : hres :=
   match pull_uint_var b with PErr => HBuf | POk offset b =>
   match pull_uint_var b with PErr => HBuf | POk len b =>
     if offset + len >? UINT_VAR_MAX then HErr false EC_FRAME_ENCODING_ERROR ft else
@@ -261,13 +225,14 @@ Definition h_crypto (st : cst) (epoch ft : Z) (b : list Z) : hres :=
       if offset - r_start r >? CRYPTO_FAR then HOk st rest else
       match handle_frame r offset data false with
       | (RData out _, r') =>
-          match tls_handle_message st out with
-          | TOk tls_buf => HOk (set_crypto st epoch r' tls_buf) rest
-          | TAlert d => HErr true (EC_CRYPTO_ERROR + d) ft
-          | TQErr code ft' => HErr true code ft'
-          | TExn k => HExn true k
+          let t := c_tls st in
+          match TlsRecv.crypto_deliver patched (ts_cfg t) (ts_ctx t) (hd [] (ts_orcs t)) ft out with
+          | TlsRecv.CROk c' => HOk (set_crypto st epoch r' (mkTls (ts_cfg t) c' (tl (ts_orcs t)))) rest
+          | TlsRecv.CRQuic code ft' => HErr true code ft'
+          | TlsRecv.CRBuf => HErr true EC_FRAME_ENCODING_ERROR ft   (* `except BufferReadError` of _payload_received *)
+          | TlsRecv.CRExn k => HExn true k
           end
-      | (_, r') => HOk (set_crypto st epoch r' (c_tls_buf st)) rest
+      | (_, r') => HOk (set_crypto st epoch r' (c_tls st)) rest
       end
     end
   end end.
@@ -419,7 +384,7 @@ Definition run_handler (patched : bool) (h : handler) (st : cst) (epoch ft : Z) 
   | H_handle_ack_frame => h_ack st ft b
   | H_handle_reset_stream_frame => h_reset_stream st ft b
   | H_handle_stop_sending_frame => h_stop_sending st ft b
-  | H_handle_crypto_frame => h_crypto st epoch ft b
+  | H_handle_crypto_frame => h_crypto patched st epoch ft b
   | H_handle_new_token_frame => h_new_token st ft b
   | H_handle_stream_frame => h_stream st ft b
   | H_handle_max_data_frame => h_one_varint st b
@@ -553,8 +518,10 @@ Definition recv_header_decide (patched is_client firstflight : bool) (ptype dgra
 
 (* ---------- executable interface --------------------------------------------------------
    tokens: mode ...
-     mode 0 (packet):  patched epoch crypto_required reserved_bits, 17 scalars, oracle (3),
-                       7 length-prefixed lists (the last: host CIDs never sent), streams, 3 crypto receivers, payload (length-prefixed)
+     mode 0 (packet):  patched epoch crypto_required reserved_bits, 15 scalars,
+                       6 length-prefixed lists (the last: host CIDs never sent), streams, 3 crypto receivers,
+                       the tls.Context (cfg + ctx tokens of TlsRecv.exec_tlsrecv), n handle_message calls and for each its
+                       oracle records (count, records), payload (length-prefixed)
        -> kind (0 ok | 1 closed by us | 2 closed by peer | 3 exception) code ft nlog
      mode 1 (header):  patched is_client firstflight ptype dgram_len dcid_known version_supported
        -> kind (0 process | 1 drop | 2 negotiate | 3 exception) value *)
@@ -597,18 +564,27 @@ Definition out_outcome (o : outcome) : list Z :=
   | OExn n k => [3; k; 0; n]
   end.
 
-Definition exec_packet (t : list Z) : list Z :=
+Fixpoint rd_orc_lists (n : nat) (t : list Z) : list (list TlsRecv.orc) * list Z :=
+  match n with
+  | O => ([], t)
+  | S n =>
+      match t with
+      | m :: t => let '(x, t) := TlsRecv.rd_orcs (Z.to_nat m) t in
+                  let '(r, t) := rd_orc_lists n t in (x :: r, t)
+      | [] => ([], [])
+      end
+  end.
+
+(* the abstract state from is_client to the tls.Context (oracle lists empty) *)
+Definition rd_cst (t : list Z) : option (cst * list Z) :=
   match t with
-  | patched :: epoch :: creq :: rbits ::
-    is_client :: md_used :: md_value :: ms_bidi :: ms_uni :: msd_br :: msd_uni :: dgram_max ::
-    host_seq :: ctx_cid :: rlimit :: peer_seq :: peer_rpt :: pending :: cid_limit :: tls_state ::
-    ok :: ov :: oft :: t =>
+  | is_client :: md_used :: md_value :: ms_bidi :: ms_uni :: msd_br :: msd_uni :: dgram_max ::
+    host_seq :: ctx_cid :: rlimit :: peer_seq :: peer_rpt :: pending :: cid_limit :: t =>
       let '(host_cids, t) := tk_list t in
       let '(avail, t) := tk_list t in
       let '(seen, t) := tk_list t in
       let '(chal, t) := tk_list t in
       let '(fin, t) := tk_list t in
-      let '(tls_buf, t) := tk_list t in
       let '(unsent, t) := tk_list t in
       match t with
       | ns :: t =>
@@ -616,13 +592,29 @@ Definition exec_packet (t : list Z) : list Z :=
           let '(ci, t) := rd_recv t in
           let '(ch, t) := rd_recv t in
           let '(c1, t) := rd_recv t in
+          match TlsRecv.rd_cfg_ctx t with
+          | Some (g, c, t) =>
+              Some (mkCst (z2b is_client) md_used md_value ms_bidi ms_uni msd_br msd_uni dgram_max
+                          host_seq ctx_cid rlimit peer_seq peer_rpt pending cid_limit
+                          (mkTls g c []) host_cids avail seen chal fin streams
+                          ci ch c1 None unsent, t)
+          | None => None
+          end
+      | [] => None
+      end
+  | _ => None
+  end.
+
+Definition exec_packet (t : list Z) : list Z :=
+  match t with
+  | patched :: epoch :: creq :: rbits :: t =>
+      match rd_cst t with
+      | Some (st, ncalls :: t) =>
+          let '(orcs, t) := rd_orc_lists (Z.to_nat ncalls) t in
           let '(payload, _) := tk_list t in
-          let st := mkCst (z2b is_client) md_used md_value ms_bidi ms_uni msd_br msd_uni dgram_max
-                          host_seq ctx_cid rlimit peer_seq peer_rpt pending cid_limit tls_state
-                          (mkTlsOracle ok ov oft) host_cids avail seen chal fin tls_buf streams
-                          ci ch c1 None unsent in
+          let st := set_crypto st (-1) recv_init (mkTls (ts_cfg (c_tls st)) (ts_ctx (c_tls st)) orcs) in
           out_outcome (receive_packet (z2b patched) st epoch (z2b creq) (z2b rbits) payload)
-      | [] => []
+      | _ => []
       end
   | _ => []
   end.
